@@ -9,7 +9,6 @@ package command
 //@ import "path/filepath"
 //@ import "github.com/gardenbed/emerge/internal/generate/golang"
 
-
 //@ spec func untouchedFS() bool =
 //@   forall q string :: {fsKind[q]} {fsData[q]} old(fsKind)[q] != 0 && !isStdStream(q) ==> fsKind[q] == old(fsKind)[q] && fsData[q] == old(fsData)[q]
 
